@@ -368,6 +368,48 @@ theorem only_atomic_union (f : Nat) (l : List M) (names : List String) (hl : All
   rw [only_union_eq]
   exact unionOfList_atomic f _ (map_only_atomic (f + 3) l names hl)
 
+
+/-! ### `exclude()` / `without_extras()` on raw compounds holding constants -/
+
+theorem exclude_atomic (f : Nat) (c : M) (name : String) (hc : Atomic c) : Atomic (exclude f c name) := by
+  cases f with
+  | zero => exact hc
+  | succ n =>
+    rcases hc with rfl | rfl | hc
+    · exact Or.inl rfl
+    · exact Or.inr (Or.inl rfl)
+    · cases c <;> simp [isSingle] at hc <;> simp only [exclude] <;> split <;>
+        first | exact Or.inr (Or.inl rfl) | exact Or.inr (Or.inr rfl)
+
+theorem exclude_atomic_multi (f : Nat) (l : List M) (name : String) (hl : AllAtomic l) :
+    FlatNF true (exclude (f + 4) (.multi l) name) := by
+  rw [exclude_multi_eq]
+  apply multiOf_atomic
+  intro x hx
+  simp only [List.mem_filterMap] at hx
+  obtain ⟨c, hc, hcx⟩ := hx
+  have hca := exclude_atomic (f + 3) c name (hl c hc)
+  split at hcx
+  · cases hcx
+  · split at hcx
+    · cases hcx
+    · cases hcx; exact hca
+
+theorem exclude_atomic_union (f : Nat) (l : List M) (name : String) (hl : AllAtomic l) :
+    FlatNF false (exclude (f + 4) (.union l) name) := by
+  rw [exclude_union_eq]
+  simp only
+  split
+  · right; left; rfl
+  · apply unionOfList_atomic
+    intro x hx
+    simp only [List.mem_filterMap] at hx
+    obtain ⟨c, hc, hcx⟩ := hx
+    have hca := exclude_atomic (f + 3) c name (hl c hc)
+    split at hcx
+    · cases hcx
+    · cases hcx; exact hca
+
 /-! non-vacuity: lists with both constants -/
 
 example : AllAtomic [atomA, .any, atomB, .empty] := by
